@@ -128,6 +128,8 @@ func runC11(p *Program, r *Report) {
 	checkDelData(p, r, a)
 	r.Rule("R11h", "FULL-HASH-KEYS: the verifier-state update never identifies a node by a truncated hash (two added leaves, or a leaf and a root, with a common 12-byte prefix would collapse into one entry of the update data)")
 	checkFullHashKeys(p, r, "R11h", "(*Stump).Update", []string{"(*Stump).Update"})
+	r.Rule("R11j", "NO-COUNT-NARROWING: under Stump.Update no count taken from a length is converted to a narrower integer type (a block with 65536 or more additions would be truncated silently)")
+	checkNoCountNarrowing(p, r, "R11j", []string{"(*Stump).Update"})
 	r.Rule("R11i", "LEAF-COUNT-MONOTONE: under Stump.Update every store into the leaf count is an increment of its own value (PrevNumLeaves and the reported positions are those of the forest with every leaf ever added)")
 	checkLeafCountMonotone(p, r, "R11i", []string{"(*Stump).Update"})
 	r.Rule("R11f", "SUCCESS-RETURNS-DATA: every success return of the verifier-state update hands out the UpdateData whose fields were all stored")
